@@ -242,6 +242,9 @@ class DocutilsRenderer(RendererProtocol):
             )
 
         # ensure these settings are set for later footnote transforms
+        # (on a copy: the settings object may be reused for other documents,
+        # which must not inherit what this document's front-matter selected)
+        self.document.settings = self.document.settings.copy()
         self.document.settings.myst_footnote_transition = (
             self.md_config.footnote_transition
         )
